@@ -1,8 +1,8 @@
 (* C11 proofs, part 4: every step of Model/ToastSql.v keeps the invariant "each row shows the value of the
    last successful write to its key - inline, or through a pointer under the chunk id of its own row id
    whose chunks are all in the toast table - and every chunk in the toast table belongs to such a row";
-   under it no toast write can meet an occupied key.  The only step that breaks it is a re-executed
-   prepared INSERT of pointer-like bytes (finding class 4: the model's `fake` flag goes up). *)
+   under it no toast write can meet an occupied key.  (A re-executed prepared INSERT stores inline, but since
+   cc39952 only values that neither need TOAST nor look like a pointer reach it.) *)
 From Coq Require Import ZArith List Bool Lia ZifyBool.
 From TV Require Import Lib.MachInt Lib.MachIntFacts Gen.Toast Model.Toast Model.Utf8 Model.ToastSql
   Proof.ToastCodec Proof.ToastStore Proof.ToastSqlBase.
@@ -318,24 +318,20 @@ Qed.
 
 Ltac fin_same Hsame :=
   split; [reflexivity|]; split; [apply Hsame; reflexivity|];
-  cbn [dead fake next_rid rows toast]; repeat split; auto.
+  cbn [dead next_rid rows toast]; repeat split; auto.
 
 (* ---------------------------------------------------------------- INSERT *)
 Lemma step_ins_ok st e p k v st' ob :
   Inv st e -> val_ok ty v = true -> ~ In k (map r_k (rows st)) -> next_rid st < 2 ^ 48 ->
-  step_ins st p k v = (st', ob) -> fake st' = false ->
+  step_ins st p k v = (st', ob) ->
   exists e', spec_step e (OIns p k v) ob = Some e' /\ Inv st' e' /\
              dead st' = dead st /\ next_rid st' = next_rid st + 1 /\
              (forall y, In y (map r_k (rows st')) -> y = k \/ In y (map r_k (rows st))).
 Proof.
-  intros Hi Hok Hfresh Hrid H Hfk. pose proof (inv_rid st e Hi) as Hr1.
+  intros Hi Hok Hfresh Hrid H. pose proof (inv_rid st e Hi) as Hr1.
   unfold step_ins in H. rewrite (rid_unused st e Hi) in H.
-  set (cached := match p with PS => ins_cached st | _ => false end) in H.
+  set (cached := (match p with PS => ins_cached st | _ => false end) && negb (wants_toast v)) in H.
   set (ic := match p with PS => true | _ => ins_cached st end) in H.
-  set (fk := fake st || (cached && match var_bytes v with Some b => is_toast_pointer b | None => false end)) in H.
-  assert (fk = false) as Hfk0.
-  { destruct (snd (if cached then put_value_cached (toast st) v else put_value false (toast st) (next_rid st) v));
-      injection H as <- _; exact Hfk. }
   assert (forall stx, rows stx = rows st -> toast stx = toast st -> next_rid stx = next_rid st + 1 -> gone stx = gone st -> Inv stx e) as Hsame.
   { intros stx E1 E2 E3 E4. constructor; rewrite ?E1, ?E2, ?E3, ?E4; auto;
       [exact (inv_rows st e Hi) | exact (inv_keys st e Hi) | exact (inv_ridnd st e Hi) | lia
@@ -354,7 +350,10 @@ Proof.
   { destruct cached eqn:Ec.
     - destruct (put_value_cached (toast st) v) as [m' sv] eqn:Ep. exists m', sv. split; [reflexivity|].
       assert (forall b, var_bytes v = Some b -> is_toast_pointer b = false) as Hnp.
-      { intros b Eb. unfold fk in Hfk0. rewrite Eb in Hfk0. apply orb_false_iff in Hfk0 as [_ H0]. exact H0. }
+      { intros b Eb. unfold cached in Ec. apply andb_true_iff in Ec as [_ Ew]. apply negb_true_iff in Ew.
+        destruct v; cbn [var_bytes] in Eb; try discriminate; injection Eb as ->; cbn [wants_toast] in Ew.
+        - destruct ty; cbn [val_ok] in Hok; try discriminate. apply andb_true_iff in Hok as [Hu _]. now apply utf8_not_pointer.
+        - apply orb_false_iff in Ew as [_ Ew]. exact Ew. }
       destruct (put_value_cached_spec (toast st) v m' sv Hok Hnp Ep) as [-> Hs].
       split; [apply extends_refl|]. destruct sv as [s|]; [|reflexivity]. destruct Hs as [Hs1 Hs2].
       split; [apply Hs1|]. intros k0 x Hk0. now left.
@@ -388,7 +387,7 @@ Lemma step_upd_ok st e p k v st' ob :
   Inv st e -> val_ok ty v = true -> next_rid st <= 2 ^ 48 ->
   step_upd pk st p k v = (st', ob) ->
   exists e', spec_step e (OUpd p k v) ob = Some e' /\ Inv st' e' /\
-             dead st' = dead st /\ fake st' = fake st /\ next_rid st' = next_rid st /\
+             dead st' = dead st /\ next_rid st' = next_rid st /\
              map r_k (rows st') = map r_k (rows st).
 Proof.
   intros Hi Hok Hb H. pose proof (inv_rid st e Hi) as Hr1.
@@ -406,7 +405,7 @@ Proof.
       rewrite Ep in H. cbn [fst snd] in H. injection H as <- <-.
       exists (exp_set k v e).
       split; [reflexivity|].
-      split; [|cbn [dead fake next_rid rows]; repeat split; auto; apply set_row_keys].
+      split; [|cbn [dead next_rid rows]; repeat split; auto; apply set_row_keys].
       assert (forall r', In r' (rows st) -> r_k r' = k -> r' = r) as Huniq.
       { intros r' Hin' Hk'. eapply (nodup_map_inj r_k); [exact (inv_keys st e Hi) | | |]; auto. congruence. }
       constructor; cbn [rows toast next_rid gone].
@@ -429,7 +428,7 @@ Proof.
         -- exists (mkrow (r_rid r) k s), n. split; [apply set_row_has; auto; exact (inv_keys st e Hi)|]. cbn [r_st]. rewrite Hc. auto.
   - injection H as <- <-. exists (exp_set k v e).
     split; [reflexivity|].
-    split; [|cbn [dead fake next_rid rows]; repeat split; auto].
+    split; [|cbn [dead next_rid rows]; repeat split; auto].
     rewrite (exp_set_absent (R (toast st)) (R_key (toast st)) k v (rows st) e (inv_rows st e Hi) (find_k_none _ _ Ef)).
     apply Hsame; reflexivity.
 Qed.
@@ -438,7 +437,7 @@ Qed.
 Lemma step_del_ok st e k st' ob :
   Inv st e -> next_rid st <= 2 ^ 48 -> step_del st k = (st', ob) ->
   exists e', spec_step e (ODel k) ob = Some e' /\ Inv st' e' /\
-             dead st' = dead st /\ fake st' = fake st /\ next_rid st' = next_rid st /\
+             dead st' = dead st /\ next_rid st' = next_rid st /\
              (forall y, In y (map r_k (rows st')) -> In y (map r_k (rows st))).
 Proof.
   intros Hi Hb H. unfold step_del in H.
@@ -448,7 +447,7 @@ Proof.
     pose proof (inv_rid48 st e r Hi Hb Hin) as Hrid.
     exists (exp_del k e).
     split; [reflexivity|].
-    split; [|cbn [dead fake next_rid rows]; repeat split; auto; intros y; apply del_row_keys_incl].
+    split; [|cbn [dead next_rid rows]; repeat split; auto; intros y; apply del_row_keys_incl].
     constructor; cbn [rows toast next_rid gone].
     + apply (F2_del (R (toast st)) (R (drop_old (toast st) (r_st r))) (R_key (toast st))); [exact (inv_rows st e Hi) | exact (inv_keys st e Hi) |].
       intros r' x Hin' HR Hk'. rewrite <- Hk in Hk'. now apply Hothers.
